@@ -13,6 +13,7 @@ import ChythonModel.Proofs.C02Positional
 import ChythonModel.Proofs.C02Atoms
 import ChythonModel.Proofs.C02Fuel2
 import ChythonModel.Proofs.C02ChainSym
+import ChythonModel.Proofs.C02BondOrder
 /-!
 # C02 — SMILES write then read is lossless; canonical strings never collide
 
@@ -440,6 +441,22 @@ theorem chain_bond_symbols (m : Mol) (env : Env) (opts : Opts) (rs : List Round)
     ∀ e ∈ es, e.closure = false →
       ∃ r ∈ rs, ∃ s, (e.a, e.b) ∈ fbonds r.smi ∧ formatBond m opts r.sc e.a e.b = .ok s ∧ e.s2 = some s ∧ e.s1 = none :=
   chain_symbols_parent m env opts rs order hwf h es hes
+
+/-- **chain_bond_orders**: for every well-formed molecule written with bond symbols (not `!b`), the symbol read back in front
+    of a chain atom decodes (`decodeOrder`: empty = single, or aromatic when both atoms are written aromatic; `-` `/` `\` = 1,
+    `=` = 2, `#` = 3, `:` = 4, `~` = none of these) to the order of the bond between that atom and its DFS parent in the
+    molecule: chain bonds keep their order through write + read (orders outside 1–4 are only known to be outside 1–4). -/
+theorem chain_bond_orders (m : Mol) (env : Env) (opts : Opts) (rs : List Round) (order : List Nat)
+    (hwf : m.WF = true) (hb : opts.bonds = true) (h : smilesRounds m env opts = .ok (rs, order))
+    (es : List REdge) (hes : readToks (joinRounds rs) = .ok es) :
+    ∀ e ∈ es, e.closure = false → ∃ bd s, m.bond? e.a e.b = some bd ∧ e.s2 = some s ∧
+      (match decodeOrder s (opts.aromatic && hybridization m e.a == 4 && hybridization m e.b == 4) with
+       | some o => bd.order = o
+       | none => bd.order ∉ [1, 2, 3, 4]) := by
+  intro e he hc
+  obtain ⟨r, _, s, _, hf, hs2, _⟩ := chain_symbols_parent m env opts rs order hwf h es hes e he hc
+  obtain ⟨bd, hbd, hdec⟩ := formatBond_decodes hwf hb hf
+  exact ⟨bd, s, hbd, hs2, hdec⟩
 
 /-- **text_reads_back_constitution** (the property's own formulation, constitution part: "reading the text back gives a
     molecule isomorphic to the original under the written atom order"): for every well-formed molecule without an
